@@ -7,6 +7,7 @@
 #include "core/core.h"
 #include "harness/checks.h"
 #include "harness/exec.h"
+#include "model/policy.h"
 #include "kernel/kernel.h"
 
 using core::Plan;
@@ -375,8 +376,25 @@ Plan gen_c07(uint64_t seed, bool th) {
     } else if (x < 40) {
       if (!added.empty() && g.r.pct(75)) {
         size_t k = g.r.below(added.size());
-        g.add(g.mk("rmmatch", g.r.pct(85) ? added[k].first : c, {g.deliver_mode()}, {added[k].second}));
-        if (g.r.pct(70)) added.erase(added.begin() + (long)k);
+        std::string rule = added[k].second;
+        bool exact = true;
+        if (g.r.pct(35)) {
+          // a near miss: the same text with one key changed into its sibling (argN <-> argNpath <->
+          // arg0namespace, path <-> path_namespace, sender <-> destination): equal only if nothing changed
+          static const char *swaps[][2] = {{"path=", "path_namespace="}, {"path_namespace=", "path="}, {"arg0=", "arg0path="}, {"arg0path=", "arg0="},
+                                           {"arg0=", "arg0namespace="}, {"arg0namespace=", "arg0="}, {"arg1=", "arg1path="}, {"arg1path=", "arg1="},
+                                           {"arg2path=", "arg2="}, {"arg2=", "arg2path="}, {"interface=", "member="}, {"type='signal'", "type='error'"}};
+          size_t start = g.r.below(12);
+          for (size_t t = 0; t < 12 && exact; t++) {
+            const char **sw = swaps[(start + t) % 12];
+            size_t at = rule.find(sw[0]);
+            // only a whole key: at the start or after a comma
+            if (at != std::string::npos && (at == 0 || rule[at - 1] == ',')) { rule = rule.substr(0, at) + sw[1] + rule.substr(at + strlen(sw[0])); exact = false; }
+          }
+        }
+        g.add(g.mk("rmmatch", g.r.pct(85) ? added[k].first : c, {g.deliver_mode()}, {rule}));
+        if (exact && g.r.pct(70)) added.erase(added.begin() + (long)k);
+        else if (!exact && g.r.pct(50)) { g.add(g.mk("addmatch", added[k].first, {-1}, {rule})); added.push_back({added[k].first, rule}); }
       } else {
         bool vh;
         g.add(g.mk("rmmatch", c, {g.deliver_mode()}, {gen_rule(g, &vh)}));
@@ -590,6 +608,225 @@ Plan gen_c10(uint64_t seed, bool th) {
   return g.p;
 }
 
+// ---------------------------------------------------------------- policies (C09, C06, C18)
+
+pol::Rule prule(bool allow, pol::Rule::Kind k) { pol::Rule r; r.allow = allow; r.kind = k; return r; }
+
+pol::Policy requested_replies_only_policy() {
+  // the system-bus shape: everything needed for ordinary traffic, replies only when requested, no eavesdropping
+  pol::Policy p;
+  pol::Block b;
+  b.ctx = pol::Block::DEFAULT;
+  { pol::Rule r = prule(true, pol::Rule::USER); r.who = "*"; b.rules.push_back(r); }
+  { pol::Rule r = prule(true, pol::Rule::OWN); r.own = "*"; b.rules.push_back(r); }
+  for (const char *t : {"method_call", "signal", "method_return", "error"}) { pol::Rule r = prule(true, pol::Rule::SEND); r.type = pol::Opt(t); b.rules.push_back(r); }
+  for (const char *t : {"method_call", "signal", "method_return", "error"}) { pol::Rule r = prule(true, pol::Rule::RECEIVE); r.type = pol::Opt(t); b.rules.push_back(r); }
+  p.blocks.push_back(b);
+  return p;
+}
+
+Plan gen_c09(uint64_t seed, bool th) {
+  G g(seed, th);
+  g.p.prop = "C09";
+  g.p.seed = seed;
+  base_shape(g, 2, th ? 6 : 4);
+  g.p.cfg["policy.spec"] = pol::encode(requested_replies_only_policy());
+  if (g.r.pct(40)) g.p.cfg["lim.replies"] = std::to_string(g.r.range(1, 3));
+  bool timed = g.r.pct(50);
+  if (timed) g.p.cfg["lim.reply_timeout"] = std::to_string(g.r.range(20, 3000));
+  g.connect_all(false, g.r.pct(30));
+  int nops = (int)g.r.range(8, th ? 70 : 30);
+  std::vector<int64_t> used_serials;
+  for (int i = 0; i < nops; i++) {
+    int c = g.a_client();
+    int x = (int)g.r.below(100);
+    if (x < 38) {
+      int64_t flags = g.r.pct(20) ? 1 : 0;          // NO_REPLY_EXPECTED opens no slot
+      int64_t serial = 0;
+      if (g.r.pct(12)) serial = g.r.range(2, 12);    // may collide with an outstanding call's serial
+      std::string dest = g.r.pct(75) ? "$u" + std::to_string(g.a_client()) : (g.r.pct(50) ? g.a_name() : "com.example.missing");
+      g.add(g.mk("send", c, {1, flags, g.deliver_mode(), 0, 0, 0, 0, 0, serial}, {dest, "/obj", "com.example.Iface", "Call", "", ""}));
+    } else if (x < 72) {
+      int mode;
+      int mk = (int)g.r.below(100);
+      if (mk < 45) mode = (int)g.r.below(2);         // genuine return / error
+      else if (mk < 62) mode = 2;                     // duplicate
+      else if (mk < 74) mode = 3;                     // wrong serial
+      else if (mk < 86) mode = 4;                     // to a third party
+      else mode = 5;                                  // from a third party
+      g.add(g.mk("reply", c, {(int64_t)g.r.below(5), mode, g.deliver_mode()}));
+    } else if (x < 78) {
+      // an unsolicited reply-type message with an arbitrary serial
+      g.add(g.mk("send", c, {g.r.pct(50) ? 2 : 3, 0, -1, (int64_t)g.r.range(1, 15)}, {"$u" + std::to_string(g.a_client()), "", "", "", g.r.pct(50) ? "" : "com.example.Error.X", ""}));
+    } else if (x < 85) {
+      g.add(g.mk("close", c));
+    } else if (x < 93 && timed) {
+      g.add(g.mk("adv", -1, {(int64_t)g.r.range(5, 2500)}));
+    } else if (x < 96) {
+      g.add(g.mk("reqname", c, {(int64_t)g.r.below(8), -1}, {g.a_name()}));
+    } else {
+      int ni = g.sh.nclients++;
+      g.add(g.mk("connect", ni, {0, 0, 1000 + ni, 0, 0}));
+      g.add(g.mk("auth", ni, {1}));
+      g.add(g.mk("hello", ni, {-1}));
+    }
+    g.pump();
+    if (g.r.pct(12)) g.add(g.mk("check"));
+  }
+  return g.p;
+}
+
+// ---------------------------------------------------------------- C06: policy decisions
+
+static const char *kPolNames[] = {"com.example.a", "com.example.a.b", "com.example.ab", "org.test.Svc"};
+
+pol::Rule random_msg_rule(G &g, bool send) {
+  pol::Rule r = prule(g.r.pct(50), send ? pol::Rule::SEND : pol::Rule::RECEIVE);
+  static const char *types[] = {"method_call", "method_return", "signal", "error"};
+  if (g.r.pct(35)) r.type = pol::Opt(types[g.r.below(4)]);
+  if (g.r.pct(25)) r.interface = pol::Opt(kIfaces[g.r.below(3)]);
+  if (g.r.pct(25)) r.member = pol::Opt(kMembers[g.r.below(3)]);
+  if (g.r.pct(20)) r.path = pol::Opt(kPaths[g.r.below(5)]);
+  if (g.r.pct(8)) r.error = pol::Opt("com.example.Error.Oops");
+  int pk = (int)g.r.below(100);
+  if (pk < 30) r.peer = pol::Opt(g.r.pct(80) ? kPolNames[g.r.below(4)] : "org.freedesktop.DBus");
+  else if (pk < 40 && send) r.peer_prefix = pol::Opt(g.r.pct(50) ? "com.example.a" : "com.example");
+  else if (pk < 48) r.star_peer = true;
+  if (send && g.r.pct(12) && !r.peer.set && !r.peer_prefix.set) r.broadcast = (int)g.r.below(2);
+  if (g.r.pct(15)) r.requested_reply = (int)g.r.below(2);
+  if (g.r.pct(15)) r.eavesdrop = (int)g.r.below(2);
+  if (g.r.pct(6)) r.min_fds = (long)g.r.below(2);
+  if (g.r.pct(6)) r.max_fds = (long)g.r.below(2);
+  // a rule needs at least one attribute of its family
+  if (!r.type.set && !r.interface.set && !r.member.set && !r.path.set && !r.error.set && !r.peer.set && !r.peer_prefix.set && !r.star_peer && r.broadcast < 0 &&
+      r.requested_reply < 0 && r.min_fds < 0 && r.max_fds < 0) {
+    if (send || r.eavesdrop < 0) r.star_peer = true;
+  }
+  // combinations the manual / parser do not admit (not well-formed rule lists): error with interface or member
+  if (r.error.set) { r.interface = pol::Opt(); r.member = pol::Opt(); }
+  // the configuration parser refuses a member without an interface or a path (not a well-formed rule)
+  if (r.member.set && !r.interface.set && !r.path.set) r.interface = pol::Opt(kIfaces[g.r.below(3)]);
+  return r;
+}
+
+pol::Rule random_own_rule(G &g) {
+  pol::Rule r = prule(g.r.pct(55), pol::Rule::OWN);
+  int k = (int)g.r.below(100);
+  if (k < 20) r.own = "*";
+  else if (k < 60) r.own = kPolNames[g.r.below(4)];
+  else { r.own = g.r.pct(50) ? "com.example.a" : "com.example"; r.own_is_prefix = true; }
+  return r;
+}
+
+void random_rules(G &g, pol::Block &b, int n) {
+  for (int i = 0; i < n; i++) {
+    int k = (int)g.r.below(100);
+    if (k < 45) b.rules.push_back(random_msg_rule(g, true));
+    else if (k < 80) b.rules.push_back(random_msg_rule(g, false));
+    else b.rules.push_back(random_own_rule(g));
+  }
+}
+
+Plan gen_c06(uint64_t seed, bool th) {
+  G g(seed, th);
+  g.p.prop = "C06";
+  g.p.seed = seed;
+  base_shape(g, 3, th ? 6 : 5);
+  g.sh.names.clear();
+  for (int i = 0; i < 3; i++) g.sh.names.push_back(kPolNames[g.r.below(4)]);
+  pol::Policy p;
+  {
+    pol::Block b;
+    b.ctx = pol::Block::DEFAULT;
+    if (g.r.pct(75)) { pol::Rule r = prule(true, pol::Rule::USER); r.who = "*"; b.rules.push_back(r); }
+    else {
+      // connect rules: who may connect at all (default: only the bus's own uid)
+      int n = (int)g.r.range(0, 3);
+      for (int i = 0; i < n; i++) {
+        pol::Rule r = prule(g.r.pct(60), g.r.pct(70) ? pol::Rule::USER : pol::Rule::GROUP);
+        static const char *us[] = {"*", "user1000", "1001", "root"};
+        static const char *gs[] = {"*", "group1000", "1001"};
+        r.who = r.kind == pol::Rule::USER ? us[g.r.below(4)] : gs[g.r.below(3)];
+        b.rules.push_back(r);
+      }
+    }
+    // a permissive base in most runs, so that the random rules are what decides
+    if (g.r.pct(80)) {
+      { pol::Rule r = prule(true, pol::Rule::SEND); r.star_peer = true; if (g.r.pct(50)) r.requested_reply = 0; b.rules.push_back(r); }
+      { pol::Rule r = prule(true, pol::Rule::RECEIVE); r.star_peer = true; if (g.r.pct(50)) r.requested_reply = 0; if (g.r.pct(40)) r.eavesdrop = 1; b.rules.push_back(r); }
+      { pol::Rule r = prule(true, pol::Rule::OWN); r.own = "*"; b.rules.push_back(r); }
+    } else {
+      { pol::Rule r = prule(true, pol::Rule::SEND); r.peer = pol::Opt("org.freedesktop.DBus"); b.rules.push_back(r); }
+      { pol::Rule r = prule(true, pol::Rule::RECEIVE); r.peer = pol::Opt("org.freedesktop.DBus"); b.rules.push_back(r); }
+    }
+    random_rules(g, b, (int)g.r.range(0, 6));
+    p.blocks.push_back(b);
+  }
+  g.sh.uids = {0, 1000, 1001};
+  if (g.r.pct(60)) { pol::Block b; b.ctx = pol::Block::USER; b.who = g.r.pct(50) ? "user1000" : "1001"; random_rules(g, b, (int)g.r.range(1, 4)); p.blocks.push_back(b); }
+  if (g.r.pct(40)) { pol::Block b; b.ctx = pol::Block::GROUP; b.who = g.r.pct(50) ? "group1000" : "1001"; random_rules(g, b, (int)g.r.range(1, 3)); p.blocks.push_back(b); }
+  if (g.r.pct(25)) { pol::Block b; b.ctx = g.r.pct(50) ? pol::Block::AT_CONSOLE_TRUE : pol::Block::AT_CONSOLE_FALSE; random_rules(g, b, (int)g.r.range(1, 3)); p.blocks.push_back(b); if (g.r.pct(50)) g.p.cfg["console.1000"] = "1"; }
+  if (g.r.pct(50)) { pol::Block b; b.ctx = pol::Block::MANDATORY; random_rules(g, b, (int)g.r.range(1, 3)); p.blocks.push_back(b); }
+  // a trailing attribute-less catch-all after selective rules: the shape the daemon's rule pruning looks for
+  if (g.r.pct(25)) {
+    pol::Rule r = prule(g.r.pct(50), g.r.pct(50) ? pol::Rule::SEND : pol::Rule::RECEIVE);
+    int k = (int)g.r.below(5);
+    if (k == 0) r.star_peer = true;
+    else if (k == 1) r.requested_reply = (int)g.r.below(2);
+    else if (k == 2) r.eavesdrop = (int)g.r.below(2);
+    else if (k == 3 && r.kind == pol::Rule::SEND) r.broadcast = (int)g.r.below(2);
+    else { r.min_fds = 0; }
+    p.blocks[g.r.below(p.blocks.size())].rules.push_back(r);
+  }
+  g.p.cfg["policy.spec"] = pol::encode(p);
+  g.connect_all(false, g.r.pct(50));
+  if (g.r.pct(40)) g.add(g.mk("addmatch", g.a_client(), {-1}, {"eavesdrop='true'"}));
+  int nops = (int)g.r.range(8, th ? 70 : 30);
+  for (int i = 0; i < nops; i++) {
+    int c = g.a_client();
+    int x = (int)g.r.below(100);
+    if (x < 18) {
+      g.add(g.mk("reqname", c, {(int64_t)g.r.below(8), -1}, {g.r.pct(80) ? g.a_name() : "com.example.a.b.c"}));
+    } else if (x < 22) {
+      g.add(g.mk("relname", c, {-1}, {g.a_name()}));
+    } else if (x < 62) {
+      std::string dest;
+      int dk = (int)g.r.below(100);
+      if (dk < 35) dest = "$u" + std::to_string(g.a_client());
+      else if (dk < 70) dest = g.a_name();
+      else if (dk < 85) dest = "";
+      else dest = "$bus";
+      int64_t type = dest.empty() ? 4 : (g.r.pct(55) ? 1 : (int64_t)g.r.range(1, 4));
+      std::string iface = (type == 4 || g.r.pct(70)) ? kIfaces[g.r.below(3)] : "";
+      std::string member = (type == 1 || type == 4) ? kMembers[g.r.below(3)] : "";
+      std::string path = (type == 1 || type == 4) ? kPaths[g.r.below(5)] : "";
+      std::string err = type == 3 ? (g.r.pct(50) ? "com.example.Error.Oops" : "com.example.Error.Other") : "";
+      int64_t rs = (type == 2 || type == 3) ? (int64_t)g.r.range(1, 20) : 0;
+      if (dest == "$bus") { type = 1; iface = "org.freedesktop.DBus"; member = g.r.pct(50) ? "ListNames" : "GetId"; path = "/org/freedesktop/DBus"; }
+      g.add(g.mk("send", c, {type, g.r.pct(15) ? (int64_t)g.r.below(4) : 0, -1, rs}, {dest, path, iface, member, err, ""}));
+    } else if (x < 78) {
+      g.add(g.mk("reply", c, {(int64_t)g.r.below(4), g.r.pct(70) ? (int64_t)g.r.below(2) : (int64_t)g.r.range(2, 5), -1}));
+    } else if (x < 84) {
+      static const char *rules[] = {"type='signal'", "eavesdrop='true'", "eavesdrop='true',type='method_call'", "interface='com.example.Iface'"};
+      g.add(g.mk("addmatch", c, {-1}, {rules[g.r.below(4)]}));
+    } else if (x < 90) {
+      static const char *qs[] = {"GetNameOwner", "ListQueuedOwners", "ListNames"};
+      g.add(g.mk("query", c, {-1}, {qs[g.r.below(3)], g.a_name()}));
+    } else if (x < 94) {
+      g.add(g.mk("close", c));
+    } else {
+      int ni = g.sh.nclients++;
+      unsigned uid = g.sh.uids[g.r.below(g.sh.uids.size())];
+      g.add(g.mk("connect", ni, {(int64_t)uid, (int64_t)uid, 1000 + ni, 0, 0}));
+      g.add(g.mk("auth", ni, {1}));
+      g.add(g.mk("hello", ni, {-1}));
+    }
+    g.pump();
+    if (g.r.pct(12)) g.add(g.mk("check"));
+  }
+  return g.p;
+}
+
 }  // namespace
 
 Plan generate(const std::string &prop, uint64_t seed, bool thorough) {
@@ -600,6 +837,8 @@ Plan generate(const std::string &prop, uint64_t seed, bool thorough) {
   if (prop == "C07") return gen_c07(seed, thorough);
   if (prop == "C13") return gen_c13(seed, thorough);
   if (prop == "C10") return gen_c10(seed, thorough);
+  if (prop == "C09") return gen_c09(seed, thorough);
+  if (prop == "C06") return gen_c06(seed, thorough);
   core::harness_error("no generator for property %s", prop.c_str());
 }
 
